@@ -42,6 +42,20 @@ func scenC01(c *ctx) {
 			}
 		}
 	}
+	// thin slices of the counter space: one byte 0xFF / 0x00 among the others, low or high half zero, powers of two
+	// and their predecessors
+	{
+		var pats []uint64
+		for b := uint(0); b < 8; b++ {
+			pats = append(pats, uint64(0xFF)<<(8*b), ^(uint64(0xFF) << (8 * b)), uint64(0x80)<<(8*b), uint64(1)<<(8*b)-1)
+		}
+		pats = append(pats, 0x00000001_00000000, 0xFFFFFFFF_00000000, 0x00000000_FFFFFFFF, 0x12345678_00000000, 0x0101010101010101, 0x8080808080808080, 0xFEFEFEFEFEFEFEFE)
+		for i, ctr := range pats {
+			key := c.someKey()
+			a := uint8(i % 3)
+			c.rec.Emit(doGenerateHOTP(fmt.Sprintf("C01/bytepat/%d/%x", i, ctr), b32(key), ctr, P{Digits: okDigits[c.rng.Intn(len(okDigits))], Alg: a}))
+		}
+	}
 	// nil parameter
 	for i := 0; i < c.n(30, 300); i++ {
 		key := c.someKey()
@@ -134,6 +148,29 @@ func scenC02(c *ctx) {
 			}
 		}
 	}
+	// thin slices: periods that are powers of two (or one off), instants at exact multiples of period*2^k (+-1),
+	// instants around 2^31, 2^32, 2^53, 2^61
+	for _, per := range []uint64{2, 4, 8, 16, 32, 64, 128, 256, 1024, 4096, 65536, 1 << 20, 1 << 24, 1<<16 - 1, 1<<16 + 1, 3, 7, 10, 100, 1000} {
+		key := c.someKey()
+		for _, sh := range []uint{0, 1, 8, 16, 31, 32} {
+			base := per << sh
+			if base >= 1<<61 || (c.quick() && sh%16 == 1) {
+				continue
+			}
+			for _, off := range []int64{-1, 0, 1} {
+				if sec := int64(base) + off; sec >= 0 {
+					emit(fmt.Sprintf("pow2/p%d/s%d%+d", per, sh, off), key, sec, int(sh), P{Digits: okDigits[c.rng.Intn(len(okDigits))], Alg: uint8(c.rng.Intn(3)), Period: per})
+				}
+			}
+		}
+	}
+	for _, anc := range []int64{1 << 31, 1 << 32, 1 << 53, 1 << 61} {
+		for _, per := range []uint64{0, 30, 60, 7, 1 << 16} {
+			for off := int64(-1); off <= 1; off++ {
+				emit(fmt.Sprintf("tanchor/%d%+d/p%d", anc, off, per), c.someKey(), anc+off, int(off+1), P{Digits: 8, Alg: uint8(per % 3), Period: per})
+			}
+		}
+	}
 	// nil parameter = SHA1, 6 digits, 30 s
 	for i := 0; i < c.n(40, 400); i++ {
 		emit("nil", c.someKey(), c.rng.Int63n(1<<40), i, P{Nil: true})
@@ -208,6 +245,19 @@ func scenC03(c *ctx) {
 					continue
 				}
 				c.rec.Emit(c.hotpValidateCase("win", key, sec, anc, P{Digits: d, Alg: a, Skew: s}, dist, "exact"))
+			}
+		}
+	}
+	// windows that cross a power of two (a carry into the next byte / word of the counter)
+	for _, k := range []uint{8, 16, 24, 32, 40, 48, 56, 63} {
+		for _, s := range []uint64{1, 3, 10} {
+			key := c.someKey()
+			sec := b32(key)
+			base := uint64(1)<<k - 1
+			for _, ctr := range []uint64{base - s + 1, base, base + 1, base + s} {
+				for _, dist := range []int{-int(s), -1, 0, 1, int(s), int(s) + 1} {
+					c.rec.Emit(c.hotpValidateCase(fmt.Sprintf("carry%d", k), key, sec, ctr, P{Digits: 6, Alg: uint8(k % 3), Skew: s}, dist, "exact"))
+				}
 			}
 		}
 	}
